@@ -88,3 +88,22 @@ package types
 //@ modifies Other
 //@ ensures err == nil ==> 0 <= amount && amount <= totalPowerOf(old(Other), addr)
 //@ ensures err != nil ==> Other == old(Other)
+
+// ---- keeper interfaces seen from feeds (assumed) -------------------------------------------------------------
+//@ spec oracleStatus(o OtherState, v Addr) oracletypes.ValidatorStatus uninterpreted
+//@ func (k OracleKeeper) GetValidatorStatus
+//@ trusted
+//@ ensures result == oracleStatus(Other, val)
+//@ func (k OracleKeeper) MissReport
+//@ trusted
+//@ modifies Other
+//@ func (k StakingKeeper) GetValidator
+//@ trusted
+//@ func (k StakingKeeper) IterateBondedValidatorsByPower
+//@ trusted
+//@ func (k StakingKeeper) TotalBondedTokens
+//@ trusted
+
+//@ func AbsInt64
+//@ ensures x > MinInt64 ==> result == abs(x)
+//@ ensures x == MinInt64 ==> result == x
